@@ -66,7 +66,46 @@ fn image_to_text(image: &[u8], rng: &mut Rng) -> String {
 
 fn gen_program(rng: &mut Rng) -> String {
     let mut b = Builder::new();
-    match rng.below(5) {
+    match rng.below(7) {
+        5 | 6 => {
+            // echo the configuration: board status (jumpers, comparators, UIO pins), the board's
+            // input port and the input registers end up in FE/FF
+            b.ldsp_imm(0xEF);
+            let which = rng.below(3);
+            match which {
+                0 => {
+                    b.ld_abs(0, 0xF1);
+                    b.st_abs(0xFF, 0);
+                    b.ld_abs(1, 0xF0);
+                    b.st_abs(0xFE, 1);
+                }
+                1 => {
+                    b.ld_abs(0, 0xFC);
+                    b.ld_abs(1, 0xFD);
+                    b.alu(0xD0, 0, 1);
+                    b.st_abs(0xFF, 0);
+                    b.ld_abs(0, 0xFE);
+                    b.ld_abs(1, 0xFF);
+                    b.alu(0x80, 0, 1);
+                    b.st_abs(0xFE, 0);
+                }
+                _ => {
+                    // comparators against non-zero DAC values
+                    b.st_abs_imm(0xF0, 100);
+                    b.st_abs_imm(0xF1, 200);
+                    b.ld_abs(0, 0xF1);
+                    b.st_abs(0xFF, 0);
+                    b.ld_abs(1, 0xF3);
+                    b.st_abs(0xFE, 1);
+                }
+            }
+            if rng.bool() {
+                b.emit(&[0x01]);
+            }
+            let l = b.label();
+            b.place(l);
+            b.jr(0, l);
+        }
         0 => {
             // interrupt-driven counter on FF
             let main = b.label();
